@@ -67,6 +67,7 @@ def read_input(args):
     else:
         rec_input = ReconciliationInput.from_dict(data)
 
+    rec_input.label_internal()
     return rec_input
 
 
